@@ -144,6 +144,22 @@ def run(tier):
     ]
     n = 24 if quick else 240
     chosen = []
+    # always replayed (first match in the canonical order of the enumerated histories): every (date, population, target set)
+    # computed without reforms, a reform followed by a second set-up of the same date computed on the new handle, and a
+    # rewrite followed by a compute -- per date
+    def last_key(h):
+        return h[-1]["key"]
+
+    for d_ in ("d1", "d2"):
+        for p_ in ("p1", "p2"):
+            for t_ in ("T1", "T2"):
+                m_ = [h for h in full if not has(h, "reform") and not has(h, "vectorize") and last_key(h)["date"] == d_ and last_key(h)["pop"] == p_ and last_key(h)["targets"] == t_ and last_key(h)["rounding"]]
+                chosen += m_[:1]
+        m_ = [h for h in full if [x["k"] for x in h] == ["setup", "reform", "setup", "compute"] and h[0]["d"] == d_ and h[2]["d"] == d_ and h[-1]["e"] == 2 and last_key(h)["pop"] == "p2" and last_key(h)["targets"] == "T2"]
+        chosen += m_[:1]
+        m_ = [h for h in full if [x["k"] for x in h][:2] == ["setup", "vectorize"] and h[0]["d"] == d_ and sum(x["k"] == "compute" for x in h) == 2 and last_key(h)["targets"] == "T2"]
+        chosen += m_[:1]
+    chk.notes["canonical_histories"] = len(chosen)
     for i in range(n):
         s = strata[i % len(strata)]
         if s:
@@ -152,7 +168,7 @@ def run(tier):
 
     # d2: a date with a rounding offset in force (2001-2003) in quick; thorough rotates through more dates
     d2 = "2002-01-01" if quick or chk.seed % 2 == 0 else rnd.choice([d for d in DATES if d != "2023-01-01"])
-    concrete = {"dates": {"d1": "2023-01-01", "d2": d2}, "targets": {"T1": None, "T2": None}, "groups": {"g1": "sozialv_beitr"}, "rules": {"f1": "grundr_bew_zeiten_avg_entgeltp"}}
+    concrete = {"dates": {"d1": "2023-01-01", "d2": d2}, "targets": {"T1": None, "T2": None}, "groups": {"g1": ["sozialv_beitr", "eink_st", "eink_st_abzuege", "kindergeld", "ges_rente", "arbeitsl_geld", "soli_st"]}, "rules": {"f1": "grundr_bew_zeiten_avg_entgeltp"}}
     import gs
 
     # target sets that are computable at both dates: T1 the tax targets, T2 contributions and transfers
@@ -182,6 +198,7 @@ def run(tier):
             events.append({"k": "call", "tid": tid, **e})
             owners.append((tid, e["pos"]))
     chk.count(len(events))
+    chk.notes["calls_that_raised"] = sorted({f"{e['key']}: {e['exc']}" for e in events if e["k"] == "call" and e.get("exc")})[:12]
     tf, of = chk.work / "hist_trace.json", chk.work / "hist_out.json"
     tlc.write_json(tf, events)
     r = tlc.run("Trace_History", "Trace_History.cfg", workdir=chk.work, env={"TRACE_FILE": str(tf), "OUT_FILE": str(of)}, timeout=1800)
